@@ -123,6 +123,8 @@ type Exec struct {
 	tracing bool
 	Trace   []Step
 	Diverge string
+	// Unsupported is set when the code under test used a construct the runtime does not model.
+	Unsupported string
 
 	// free-form per-execution storage for shims (vnet registry ...)
 	Data map[string]interface{}
@@ -487,6 +489,21 @@ func Fail(sig, detail string) {
 	e.cur.park(e)
 }
 
+// Unsupported ends the execution because the code under test uses something the runtime does not model.
+// The explorer reports it as a tooling ERROR (exit 2), never as a violation of a property.
+func Unsupported(what string) {
+	e := E
+	if e == nil {
+		panic("sched: unsupported: " + what)
+	}
+	if e.aborting {
+		return
+	}
+	e.Unsupported = what
+	e.end("unsupported")
+	e.cur.park(e)
+}
+
 // Note records a violation without ending the execution.
 func Note(sig, detail string) {
 	e := E
@@ -818,7 +835,7 @@ func sendReady[T any](ch chan<- T) bool {
 		return true // the real send will panic, as in Go
 	}
 	if cap(ch) == 0 {
-		panic("sched: send on unbuffered channel is not modelled")
+		Unsupported("send on an unbuffered channel is not modelled by the scheduler")
 	}
 	return len(ch) < cap(ch)
 }
